@@ -304,3 +304,39 @@ Proof.
     - induction l as [|a l IHl]; [reflexivity|]. now rewrite IH, IHl. }
   apply R.
 Qed.
+
+(* the statement of [comb_sound] spelled out *)
+Lemma comb_thm p e : x_typed e = true -> x_dom (zlen p) e = true -> forall d,
+  (w_n (write Fixed (eval e) p), w_e (write Fixed (eval e) p), observe d (w_ev (write Fixed (eval e) p)))
+    = ref_write e p d /\
+  (fst (sync (eval e)), observe d (snd (sync (eval e)))) = ref_sync e d /\
+  well_typed (eval e) = true /\ is_syncer (eval e) = x_syncer e.
+Proof.
+  intros Ht Hd d. pose proof (comb_sound p e Ht Hd) as H.
+  repeat split; [apply (so_w p e H)|apply (so_s p e H)|apply (so_ty p e H)|apply (so_sy p e H)].
+Qed.
+
+(* relay facts in one statement *)
+Lemma relay_thm :
+  (forall v w p, write v (add_sync w) p = write v w p) /\
+  (forall v w p, w_n (write v (lock w) p) = w_n (write v w p) /\ w_e (write v (lock w) p) = w_e (write v w p)) /\
+  (forall v w p, observe 0 (w_ev (write v (lock w) p)) =
+                 if is_locked w then observe 0 (w_ev (write v w p)) else observe 1 (w_ev (write v w p))) /\
+  (forall w, fst (sync (lock w)) = fst (sync w)) /\
+  (forall w, lock (lock w) = lock w) /\
+  (forall w, is_syncer w = true -> add_sync w = w) /\
+  (forall w, is_syncer w = false -> sync (add_sync w) = ([], []) /\ is_syncer (add_sync w) = true) /\
+  (forall w, new_multi [w] = w).
+Proof.
+  repeat split.
+  - apply write_add_sync.
+  - apply write_lock.
+  - apply write_lock.
+  - intros v w p. destruct (write_lock v w p) as (_ & _ & ->). destruct (is_locked w); [reflexivity|].
+    cbn [observe]. rewrite observe_app. cbn [observe Z.add]. apply app_nil_r.
+  - intros w. apply sync_lock.
+  - apply lock_idem.
+  - apply add_sync_keeps.
+  - now apply add_sync_noop.
+  - apply add_sync_is_syncer.
+Qed.
